@@ -200,6 +200,12 @@ func (c *Ctx) Confirm(f *Finding, run func() *Finding) {
 	c.Report(f)
 }
 
+// defaultStall: the stream-level checks complete a case every few milliseconds (seconds for the
+// largest inputs; 150 s when one of their own per-case watchdogs expires). A worker of theirs in
+// which nothing completes for ten minutes is blocked inside the library — typically a concurrent
+// Writer whose Close never returns — and must not keep the check from ending.
+var defaultStall = map[string]int{"C02": 600, "C05": 600, "C06": 600, "C07": 600, "C09": 600, "C14": 600, "C15": 600, "C16": 600, "C18": 600}
+
 // evalTick counts completed cases for the stall watchdog (Driver.StallSeconds).
 var evalTick int64
 
@@ -389,8 +395,12 @@ func Main(flavour string) {
 		}
 		c.openCrumb(os.Getenv("VERIF_PARTIAL") + ".crumb")
 		go memoryWatch(flavour)
-		if d.StallSeconds > 0 {
-			go stallWatch(d.StallSeconds)
+		stall := d.StallSeconds
+		if stall == 0 {
+			stall = defaultStall[prop]
+		}
+		if stall > 0 {
+			go stallWatch(stall)
 		}
 		if pf := os.Getenv("VERIF_CPUPROFILE"); pf != "" {
 			f, _ := os.Create(pf)
@@ -526,6 +536,16 @@ func parentMain(d *Driver, flavour, tier string, seed int64) int {
 				rep := r.tail[strings.Index(r.tail, "WARNING: DATA RACE"):]
 				merged.Report(&Finding{Sig: "data race reported by the Go race detector: " + raceSites(rep), What: rep[:minInt(len(rep), 600)], Case: map[string]string{"report": rep[:minInt(len(rep), 3000)]}, Count: 1})
 				merged.P.Counters["race_reports"]++
+				continue
+			}
+			if ee, ok := r.err.(*exec.ExitError); ok && ee.ExitCode() == 68 {
+				cs := map[string]string{"stderr": r.tail[:minInt(len(r.tail), 600)]}
+				if crumb != nil {
+					cs["case"] = string(crumb[:minInt(len(crumb), 4000)])
+				}
+				merged.Report(&Finding{Sig: "a call into the library does not return (no case completed in the worker for the stall limit)", What: strings.TrimSpace(r.tail[:minInt(len(r.tail), 200)]), Case: cs, Count: 1})
+				merged.Flag("exhaustive", false)
+				merged.P.Counters["workers_crashed"]++
 				continue
 			}
 			if ee, ok := r.err.(*exec.ExitError); ok && ee.ExitCode() == 67 {
